@@ -14,8 +14,9 @@ HINTS = {
     "6": "Triggers that earlier rounds under-used and that you should prefer now: the file system and process environment of a command line entry point (an output file that already exists, a relative path or another working directory, input files given twice or in another order, an option's default versus the same value given explicitly); copies of objects (copy.copy / copy.deepcopy / pickle of a screen, a view, a model, a posterior sample, a holder) used in place of the original; integer and float types at an interface (int32 versus int64 ids, numpy scalars versus python numbers, 0-d arrays, negative zero, bool masks given as 0/1 integers); iteration order of dicts and sets; a threshold well above what a unit test would try (hundreds of plates, thousands of rows, 256 / 65536 boundaries) where a 'bounded memory' or 'compact dtype' rewrite changes behaviour; clauses of the statement about what must be REFUSED; a clause of the statement that the earlier seeds did not touch at all.",
     "7": "Triggers that earlier rounds under-used and that you should prefer now: arrays RETURNED to the caller that alias internal state (the caller edits what it was given and a later call is wrong), or arguments kept by reference and edited by the caller afterwards; screens of arity 1 or arity 3 where the earlier seeds used pairs; a default parameter value or keyword that silently changes meaning; an exception that is swallowed (bare except, fallback branch) so that something which must be refused is quietly 'repaired'; three public operations in a row where any two are fine; behaviour that differs between the library call and the command line entry point for the same request; a clause of the statement that the earlier seeds did not touch at all. Avoid pure size thresholds (256 / 4096 / 65536 boundaries) and pre-existing output files: the previous round used those heavily.",
     "8": "Triggers that earlier rounds under-used and that you should prefer now: a COMBINATION of two input features that are each common but rarely occur together (a control in the first column and a duplicated condition; an observed plate and a one-well plate; a batch and a chunk count that does not divide the candidates; the last sample in sort order and an empty plate; doses that differ only in sign or in the 7th digit); helpers that the anchored code calls (the casting of command line parameters to their annotated types in batchie.introspection, batchie.common, log configuration, the h5 helper functions) rather than the anchored functions themselves; the first or the last element of a loop treated differently; a comparison that changes from strict to non-strict (or the other way) where ties are possible; a clause of the statement that the earlier seeds did not touch at all. Avoid what the previous rounds used heavily: module-level or per-object caches, thresholds at 256 / 4096 / 65536, pre-existing output files, arrays aliased with the caller, mutable default arguments.",
+    "9": "Triggers that earlier rounds under-used and that you should prefer now: a REFACTORING a maintainer would plausibly make (vectorising a loop, replacing a dict by array indexing, pandas merge / groupby replacing hand-written code, another sort kind or stability, np.unique swapped for a first-occurrence pass or the other way round, a boolean mask replaced by integer positions) whose semantics differ on NaN, ties, duplicates, empty groups, or on the -1 control sentinel used as an index; falsy-but-valid values (id 0, dose 0.0, seed 0, chunk index 0, an empty-string name, fraction 0.0, an empty but present array) tested with `if x` / `x or default`; integer versus true division, rounding mode (round-half-even versus ceil / floor), float32 accumulation; the ORDER of two steps swapped (validate-then-mutate, mask-then-transform, sort-then-split); exception safety (an object that is used again after one of its methods raised); a clause of the statement that the earlier seeds did not touch at all. Avoid what the previous rounds used heavily: behaviour that depends on the logging level, module-level or per-object caches, thresholds at 256 / 4096 / 65536, pre-existing output files, arrays aliased with the caller, mutable default arguments, names that differ only in surrounding blanks.",
 }
-HINT = HINTS.get(rnd, HINTS["8"])
+HINT = HINTS.get(rnd, HINTS["9"])
 only = set(sys.argv[3:])
 props = [json.loads(l) for l in open("/verif/properties.jsonl")]
 os.makedirs(outdir, exist_ok=True)
